@@ -164,6 +164,9 @@ func (p c15) Run(w *mon.Worker, idx int) mon.Result {
 	switch fam {
 	case "sort":
 		els := c15Pool(r, 12)
+		if r.IntN(4) == 0 {
+			els = c15Pool(r, 60)
+		}
 		doc := c15Doc(els)
 		res.Case = map[string]any{"doc": doc, "expr": "sort"}
 		res.Sig = fmt.Sprintf("sort|%x", hashStr(doc))
@@ -226,13 +229,17 @@ func (p c15) Run(w *mon.Worker, idx int) mon.Result {
 		return res
 
 	case "stable":
+		// short and long inputs (library sorts switch algorithm with the length), many equal keys
 		n := 2 + r.IntN(9)
+		if r.IntN(3) == 0 {
+			n = 11 + r.IntN(50)
+		}
 		var sb strings.Builder
 		sb.WriteString("[")
 		keys := make([]c15El, n)
 		for i := 0; i < n; i++ {
-			if i > 0 && r.IntN(2) == 0 {
-				keys[i] = keys[r.IntN(i)]
+			if i > 0 && (r.IntN(2) == 0 || (n > 12 && r.IntN(4) > 0)) {
+				keys[i] = keys[r.IntN(min(i, 6))]
 			} else {
 				keys[i] = c15Elem(r)
 			}
